@@ -58,7 +58,12 @@ the Go code and a concrete instance.
     `for x in a..b { … }` over integer ranges with `break`/`continue`: the VM's iterator protocol
     (`Into_Range`, `Clone`, `Into_Iter`, `Iter_Advance`), snapshot semantics, nested loops and loops
     in callees (the iterator table is threaded through the simulation as part of the memory).
-   (Proofs of 9–16: `Lemmas/SimH*.lean`; the simulation is combined in `SimHAll.allP`. From
+17. `compileList_frag`, `compileIndex_frag`, `compileIdxAssign_frag`, `index_spec`, `wrapIndex_lt`, `index_vm`,
+    `assign_vm`, `idxAssign_spec`, `write_read_shared`, `list_correct`, `index_correct`, `idxAssign_correct` —
+    list literals, element reads `l[i]` (negative indices, the fatal `IndexOutOfBounds`), element writes
+    `l[i] = e` / `l[i] op= e`; lists are shared by reference: the heap relation is the identity (one heap,
+    the `World` of both states), the value read by `Index` carries its origin and `Assign` writes through it.
+   (Proofs of 9–17: `Lemmas/SimH*.lean`; the simulation is combined in `SimHAll.allP`. From
    section 9 on, VM runs are `execHN` — instruction sequences including `Core.Run`'s exception
    dispatch — and the states `mkS s calls mp k stk mem w` carry a world `w` = heap and output.)
 -/
@@ -2555,5 +2560,381 @@ example : ∃ K, ∀ quantum, K ≤ quantum → ∀ vfuel, ∃ s',
     obtain ⟨s', hrun, hst, hmp, hcalls, hstk⟩ := hK quantum hq vfuel
     exact ⟨s', hrun, by rw [hst]; exact hs, hmp, hcalls⟩
 end Example16
+
+/-! ## 17. Lists: literals, `l[i]`, `l[i] = e`, `l[i] op= e`; sharing by reference
+
+The VM's heap *is* the specification's heap (the `World` of the states: the same array of cells at
+the same addresses), so the relation between list values is the identity on addresses: a list is
+`.ref a` on both sides, two variables naming one list hold the same address `a`, and a write through
+either is seen through the other because both sides update cell `a` in the same way.
+`Index` pushes the element *with its origin* (`Org.listElem a n`); `Assign` writes through the origin of
+the value below the top of the stack. Values that carry an origin arise only in the value positions of
+statements (`Frag.okXE`: `let`, right-hand sides, operands of arithmetic), where `Sim.SimOE` — `Sim.SimGE`
+with the origin left open — describes them. -/
+
+/-- **What `compileExpr` emits for a list literal** whose elements are atoms: `Cloning_Push []`, then for
+every element `code(x); Copy_Push 2; HostCall __internal_list_push` (`cgEls`). -/
+theorem compileList_frag (fuel : Nat) (sp : Span) (ty : Ty) (xs : List Expr) (cs : CState)
+    (hs : Frag.okGE (.list sp ty xs) = true) (hd : Frag.cdE (.list sp ty xs) ≤ fuel)
+    (hws : Frag.wsGE cs.scopes (φOf cs) (.list sp ty xs) = true) :
+    (compileExpr fuel (.list sp ty xs)).run cs =
+      ((), updS cs cs.loops
+        ([(.cloningPush .emptyList, sp)] ++ (cgEls cs.currModule (ρS cs.scopes) sp xs cs.labelMangle).1)
+        { envOf cs with lm := (cgEls cs.currModule (ρS cs.scopes) sp xs cs.labelMangle).2 }) := by
+  have h := compileExpr_gfrag fuel _ cs hs hd hws
+  rwa [cgE] at h
+
+/-- **What `compileExpr` emits for `l[i]`** (`Frag.okXE`): `code(l); code(i); Index`. -/
+theorem compileIndex_frag (fuel : Nat) (sp : Span) (ty : Ty) (b i : Expr) (cs : CState)
+    (hs : Frag.okXE (.index sp ty b i) = true) (hd : Frag.cdE (.index sp ty b i) ≤ fuel)
+    (hws : Frag.wsGE cs.scopes (φOf cs) (.index sp ty b i) = true) :
+    let cb := cgE cs.currModule (ρS cs.scopes) (φOf cs) b cs.labelMangle
+    let ci := cgE cs.currModule (ρS cs.scopes) (φOf cs) i cb.2
+    (compileExpr fuel (.index sp ty b i)).run cs =
+      ((), updS cs cs.loops (cb.1 ++ ci.1 ++ [(.index, sp)]) { envOf cs with lm := ci.2 }) := by
+  have h := compile_xexpr fuel _ cs hs hd cs.loops [] (envOf cs) hws
+  rw [updS_self, List.nil_append, cgE] at h
+  exact h
+
+/-- **What `compileStmt` emits for `l[i] = e` and `l[i] op= e`**:
+`code(l); code(i); Index; code(e); Assign`, resp. `code(l); code(i); Index; Dup; code(e); op; Assign`. -/
+theorem compileIdxAssign_frag (fuel : Nat) (sp asp : Span) (op : Option InfixOp) (isp : Span) (ity : Ty) (b i r : Expr)
+    (cs : CState) (fr il rt : Bool)
+    (hrt : rt = true → cs.tryDepth = 0) (hil : il = true → ∃ b c rest, cs.loops = (b, c, cs.tryDepth) :: rest)
+    (hs : Frag.okFS fr il rt (.exprS sp (.assign asp op (.index isp ity b i) r)) = true)
+    (hd : Frag.cdS (.exprS sp (.assign asp op (.index isp ity b i) r)) ≤ fuel)
+    (hws : Frag.wsGS cs.currModule cs.currFn (φOf cs) (loopsOf cs.loops)
+      (.exprS sp (.assign asp op (.index isp ity b i) r)) (envOf cs) = true) :
+    let cl := cgE cs.currModule (ρS cs.scopes) (φOf cs) (.index isp ity b i) cs.labelMangle
+    let cr := cgE cs.currModule (ρS cs.scopes) (φOf cs) r cl.2
+    (compileStmt fuel (.exprS sp (.assign asp op (.index isp ity b i) r))).run cs =
+      ((), updS cs cs.loops (cl.1 ++ opPre op asp ++ cr.1 ++ opPost op asp ++ [(.assign, asp)])
+        { envOf cs with lm := cr.2 }) := by
+  have h := (compile_gstmt fuel).1 _ cs cs.loops il rt hrt hil hs hd [] (envOf cs) hws
+  rw [updS_self, List.nil_append, cgS_idxAssign] at h
+  exact h
+
+/-- **The specification's `l[i]` on a list** (`indexVal`, = `value.IndexValue`): a negative index counts
+from the end (`wrapIndex`); outside the list the fatal error `IndexOutOfBounds` at the span of the index
+expression, with the (wrapped) index in the message. -/
+theorem index_spec (a : Nat) (k : I64) (sp : Span) (st : St) (xs : List Val) (h : st.heap[a]? = some (.list xs)) :
+    indexVal (.ref a) (.int k) sp st =
+      match wrapIndex k xs.length with
+      | some n => (.ok (xs.getD n .null), st)
+      | none => (.error (.fatal "IndexOutOfBounds"
+          s!"Index out of bounds: cannot index a list of length {xs.length} with {if k.toInt < 0 then k.toInt + xs.length else k.toInt}" sp), st) :=
+  indexVal_list a k sp st xs h
+
+theorem wrapIndex_lt (k : I64) (len n : Nat) (h : wrapIndex k len = some n) : n < len := by
+  unfold wrapIndex at h
+  simp only [] at h
+  by_cases hk : k.toInt < 0
+  · simp only [hk, if_true] at h
+    split at h
+    · cases h
+    · have h' := Option.some.inj h; omega
+  · simp only [hk, if_false] at h
+    split at h
+    · cases h
+    · have h' := Option.some.inj h; omega
+
+example : wrapIndex 1 3 = some 1 ∧ wrapIndex (-1) 3 = some 2 ∧ wrapIndex (-3) 3 = some 0 ∧ wrapIndex 3 3 = none ∧
+    wrapIndex (-4) 3 = none := by decide
+
+/-- **`Index` on the VM** is the specification's `indexVal` on the VM's heap; the value is pushed with the
+slot it was read from (`idxOrg`: `Org.listElem a n` for a list, `Org.field a k` for an object). -/
+theorem index_vm (code : Code) (lim : Limits) (s : VMState) (fn : String) (ip : Nat)
+    (rest : List Frame) (mp : Int) (k : Nat) (stk : List SVal) (mem : List (Int × Val)) (out : World)
+    (c : List (RInstr × Span)) (hf : findCode code fn = some c) (sp : Span) (bv iv : Val) (ob oi : Option Org)
+    (hx : c[ip]? = some (.index, sp)) :
+    exec1 code lim (mkS s (⟨fn, ip⟩ :: rest) mp k (⟨iv, oi⟩ :: ⟨bv, ob⟩ :: stk) mem out) =
+      match (indexVal bv iv sp { s.st with heap := out.heap, out := out.out }).1 with
+      | .ok v => .next (mkS s (⟨fn, ip + 1⟩ :: rest) mp (k + 1) (⟨v, idxOrg out.heap bv iv⟩ :: stk) mem out)
+      | .error e => ctlToRes e (mkS s (⟨fn, ip⟩ :: rest) mp (k + 1) stk mem out) :=
+  mkS_index code lim s fn ip rest mp k stk mem out c hf sp bv iv ob oi hx
+
+/-- **`Assign` on the VM** writes the top of the stack through the origin of the value below it
+(`assignHeap`: the list cell with element `n` replaced, resp. the object cell with the field replaced). -/
+theorem assign_vm (code : Code) (lim : Limits) (s : VMState) (fn : String) (ip : Nat)
+    (rest : List Frame) (mp : Int) (k : Nat) (stk : List SVal) (mem : List (Int × Val)) (out : World)
+    (c : List (RInstr × Span)) (hf : findCode code fn = some c) (sp : Span) (org : Org) (heap' : Array Cell)
+    (dv v : Val) (o : Option Org)
+    (hx : c[ip]? = some (.assign, sp)) (hh : assignHeap out.heap org v = some heap') :
+    exec1 code lim (mkS s (⟨fn, ip⟩ :: rest) mp k (⟨v, o⟩ :: ⟨dv, some org⟩ :: stk) mem out) =
+      .next (mkS s (⟨fn, ip + 1⟩ :: rest) mp (k + 1) stk mem ⟨heap', out.out⟩) :=
+  mkS_assign_org code lim s fn ip rest mp k stk mem out c hf sp org heap' dv v o hx hh
+
+/-- **The specification's `l[i] = e`, `l[i] op= e`**: the slot is resolved first (`evalPlace`: `l`, then `i`,
+then the bounds check — `IndexOutOfBounds` before the right-hand side runs), then the right-hand side
+(for `op=`: the current element, the right-hand side, the operation), then the write. -/
+theorem idxAssign_spec (cfg : Cfg) (fuel : Nat) (asp : Span) (op : Option InfixOp) (isp : Span) (ity : Ty)
+    (b i r : Expr) (st : St) :
+    evalExpr cfg (fuel + 2) (.assign asp op (.index isp ity b i) r) st =
+      match evalExpr cfg fuel b st with
+      | (.ok bv, st1) =>
+        (match evalExpr cfg fuel i st1 with
+          | (.ok iv, st2) =>
+            (match placeOf bv iv isp st2 with
+              | (.ok pl, st0) =>
+                (match (match op with
+                    | none => evalExpr cfg (fuel + 1) r st0
+                    | some o =>
+                      (match readPlace pl st0 with
+                       | (.ok cur, st0') =>
+                         (match evalExpr cfg (fuel + 1) r st0' with
+                          | (.ok b, st1) => binOp o cur b asp st1
+                          | (.error c, st1) => (.error c, st1))
+                       | (.error c, st0') => (.error c, st0'))) with
+                 | (.ok v, st2) =>
+                   (match writePlace pl v st2 with
+                    | (.ok _, st3) => (.ok .null, st3)
+                    | (.error c, st3) => (.error c, st3))
+                 | (.error c, st2) => (.error c, st2))
+              | (.error c, st0) => (.error c, st0))
+          | (.error c, st2) => (.error c, st2))
+      | (.error c, st1) => (.error c, st1) := by
+  rw [evalExpr_assign_gen, evalPlace_index]
+  rcases evalExpr cfg fuel b st with ⟨r1, st1⟩
+  cases r1 with
+  | error c => rfl
+  | ok bv =>
+    simp only []
+    rcases evalExpr cfg fuel i st1 with ⟨r2, st2⟩
+    cases r2 <;> rfl
+
+/-- **Sharing**: a write to element `n` of the list at address `a` — through whichever variable holds
+`.ref a` — is what every later read of that address sees (`k` any index that wraps to `n`). -/
+theorem write_read_shared (a n : Nat) (k : I64) (v : Val) (sp : Span) (st : St) (xs : List Val)
+    (h : st.heap[a]? = some (.list xs)) (hk : wrapIndex k xs.length = some n) :
+    ∃ st', writePlace { addr := a, idx := n } v st = (.ok (), st') ∧
+      st' = { st with heap := st.heap.setIfInBounds a (.list (xs.set n v)) } ∧
+      indexVal (.ref a) (.int k) sp st' = (.ok v, st') := by
+  have hn := wrapIndex_lt k _ n hk
+  have ha : a < st.heap.size := by
+    rcases Nat.lt_or_ge a st.heap.size with h' | h'
+    · exact h'
+    · rw [Array.getElem?_eq_none h'] at h; cases h
+  refine ⟨_, ?_, rfl, ?_⟩
+  · unfold writePlace
+    simp only [M_bind, readCell_run, h]
+    rfl
+  · have hc : ({ st with heap := st.heap.setIfInBounds a (.list (xs.set n v)) } : St).heap[a]? =
+        some (.list (xs.set n v)) := by
+      simp [ha]
+    rw [indexVal_list a k sp _ _ hc, List.length_set, hk]
+    simp only []
+    congr 2
+    rw [List.getD_eq_getElem?_getD, List.getElem?_set_self (by omega)]
+    rfl
+
+/-- **List literals are simulated**: the specification evaluates the elements left to right and allocates
+a fresh cell (`evalExpr_list`); the VM builds the list in place on the same heap and ends with the same
+reference on its stack. -/
+theorem list_correct (G : GCtx) (hG : G.OK') (fuel : Nat) (A : Act) (hA : A.OK G) (sp : Span) (ty : Ty)
+    (xs : List Expr) (st : St) (ip : Nat) (stk : List SVal) (mem : Mem) (lm : LM)
+    (scopes : CScopes) (vm : List (String × Nat)) (e : Expr) (he : e = .list sp ty xs)
+    (hs : Frag.okGE e = true) (hws : Frag.wsGE scopes A.φ e = true)
+    (hT : ∀ x ∈ Frag.namesGE e, x ∈ A.T)
+    (hpl : Placed A.lab A.σ A.c ip (cgE G.mod (ρS scopes) A.φ e lm).1)
+    (hrel : StRel G.mod A.T A.N A.σ G.lim A.mp scopes vm st.scopes mem) (hsp : SpecOK G A.mp st) :
+    Sim.SimGE G A ip (nI (cgE G.mod (ρS scopes) A.φ e lm).1) stk mem st (evalExpr G.cfg fuel e st) := by
+  subst he
+  exact (allP G hG fuel).pe A hA _ st ip stk mem lm scopes vm hs hws hT hpl hrel hsp
+
+/-- **Element reads and arithmetic over them are simulated** (`Frag.okXE`, `Sim.SimOE`): the value of
+`l[i]` — negative indices wrapped — or the fatal `IndexOutOfBounds` of the specification is the VM's, through
+relocation, renaming and `Core.Run`; the heap is shared, the pushed value carries some origin. -/
+theorem index_correct (G : GCtx) (hG : G.OK') (fuel : Nat) (A : Act) (hA : A.OK G)
+    (e : Expr) (st : St) (ip : Nat) (stk : List SVal) (mem : Mem) (lm : LM)
+    (scopes : CScopes) (vm : List (String × Nat))
+    (hs : Frag.okXE e = true) (hws : Frag.wsGE scopes A.φ e = true)
+    (hT : ∀ x ∈ Frag.namesGE e, x ∈ A.T)
+    (hpl : Placed A.lab A.σ A.c ip (cgE G.mod (ρS scopes) A.φ e lm).1)
+    (hrel : StRel G.mod A.T A.N A.σ G.lim A.mp scopes vm st.scopes mem) (hsp : SpecOK G A.mp st) :
+    Sim.SimOE G A ip (nI (cgE G.mod (ρS scopes) A.φ e lm).1) stk mem st (evalExpr G.cfg fuel e st) :=
+  px_all G fuel (fun m _ => (allP G hG m).pe) A hA e st ip stk mem lm scopes vm hs hws hT hpl hrel hsp
+
+/-- **`l[i] = e` and `l[i] op= e` are simulated** (`Sim.SimGS`): the specification's outcome
+(`idxAssign_spec`) — the updated heap, or `IndexOutOfBounds` from the bounds check, or whatever the
+operands or the operation raise — is the VM's; the final heaps are equal (both are the `World` of the
+final state), so every alias of the list sees the write (`write_read_shared`). The right-hand side
+contains no call (finding V38 stays excluded). -/
+theorem idxAssign_correct (G : GCtx) (hG : G.OK') (fuel : Nat) (A : Act) (hA : A.OK G)
+    (loops : List (String × String)) (lscopes : CScopes) (d : Nat) (sp asp : Span) (op : Option InfixOp)
+    (isp : Span) (ity : Ty) (b i r : Expr) (env : CEnv) (spec : St) (ip : Nat) (stk : List SVal) (mem : Mem)
+    (stmt : Stmt) (hstmt : stmt = .exprS sp (.assign asp op (.index isp ity b i) r))
+    (hs : Frag.okFS G.fr (!loops.isEmpty) A.rt stmt = true) (hT : ∀ x ∈ Frag.identsGS stmt, x ∈ A.T)
+    (hws : Frag.wsGS G.mod A.src A.φ loops stmt env = true)
+    (hN : ∀ m ∈ codeVars (cgS G.mod A.src A.φ loops stmt env).1, A.N m)
+    (hpl : Placed A.lab A.σ A.c ip (cgS G.mod A.src A.φ loops stmt env).1)
+    (hd : 1 ≤ d) (hls : lscopes = env.scopes.drop d)
+    (hrel : Sim.GRel G A env.scopes env.vm spec.scopes mem) (hsp : SpecOK G A.mp spec) :
+    Sim.SimGS G A loops lscopes d ip (nI (cgS G.mod A.src A.φ loops stmt env).1) stk mem
+      (Sim.GRel G A (cgS G.mod A.src A.φ loops stmt env).2.scopes (cgS G.mod A.src A.φ loops stmt env).2.vm) spec
+      (evalStmt G.cfg fuel stmt spec) := by
+  subst hstmt
+  exact (allP G hG fuel).pgs A hA loops lscopes d _ env spec ip stk mem hs hT hws hN hpl hd hls hrel hsp
+
+section Example17
+private def spIdx : Span := ⟨12, 11, 12, 15⟩
+private def tyL : Ty := .list .int
+private def gl (x : String) : Expr := .ident sp0 tyL x false false false
+private def gidx (l : String) (i : Expr) : Expr := .index sp0 .int (gl l) i
+private def gset (op : Option InfixOp) (l : String) (i : Expr) (e : Expr) : Stmt :=
+  .exprS sp0 (.assign sp0 op (gidx l i) e)
+
+/-- `let l = [n, 2, 3]; let m = l; m[0] = 10; l[-1] += 4; for i in 0..3 { m[i] = l[i] * 2; }
+let s = l[0] + m[1]; let t = s + l[2];`: `m` is an alias of `l`. -/
+def buildStmts : List Stmt :=
+  [ .letS sp0 "l" tyL false tyL (.list sp0 tyL [gv "n", .int sp0 2, .int sp0 3]),
+    .letS sp0 "m" tyL false tyL (gl "l"),
+    gset none "m" (.int sp0 0) (.int sp0 10),
+    gset (some .add) "l" (.int sp0 (-1)) (.int sp0 4),
+    gfor "i" (.int sp0 0) (.int sp0 3) [ gset none "m" (gv "i") (.infix sp0 .int .mul (gidx "l" (gv "i")) (.int sp0 2)) ],
+    .letS sp0 "s" .int false .int (.infix sp0 .int .add (gidx "l" (.int sp0 0)) (gidx "m" (.int sp0 1))),
+    .letS sp0 "t" .int false .int (.infix sp0 .int .add (gv "s") (gidx "l" (.int sp0 2))) ]
+/-- `fn build(n: int) -> int { …; t }` -/
+def buildFd : FnDef := gfn "build" ["n"] .int buildStmts (some (gv "t"))
+/-- `fn at(k: int) -> int { let l = [1, 2]; let x = l[k]; x }` -/
+def atStmts : List Stmt :=
+  [ .letS sp0 "l" tyL false tyL (.list sp0 tyL [.int sp0 1, .int sp0 2]),
+    .letS sp0 "x" .int false .int (.index spIdx .int (gl "l") (gv "k")) ]
+def atFd : FnDef := gfn "at" ["k"] .int atStmts (some (gv "x"))
+/-- `fn main() { println(build(1)); println(at(-2)); println(at(2)); }`: the last call fails. -/
+def main5Stmts : List Stmt :=
+  [ gprint [gcall "build" [.int sp0 1]], gprint [gcall "at" [.int sp0 (-2)]], gprint [gcall "at" [.int sp0 2]] ]
+def main5Fd : FnDef := gfn "main" [] .null main5Stmts none
+def progL : Program :=
+  [{ name := "main", imports := [], singletons := [], globals := [], nImpls := 0, fns := [buildFd, atFd, main5Fd] }]
+
+private def fatalOut : Hms.Core.Outcome → String × String × String × Nat
+  | .fatal kd m sp out _ => (out, kd, m, sp.sl)
+  | .ok out _ => (out, "ok", "", 0)
+  | _ => ("?", "", "", 0)
+
+/-- The whole program on the models themselves: the specification … -/
+example : fatalOut (runProgram { prog := progL } 200) =
+    ("38\n1\n", "IndexOutOfBounds", "Index out of bounds: cannot index a list of length 2 with 2", 12) := by
+  decide +kernel
+/-- … and the VM. -/
+example : (match compile progL "main" 100 with
+    | .ok c => (match runMain c {} 50 20000 with
+      | .fatal kd m sp s => (s.st.out, kd, m, sp.sl) | _ => ("?", "", "", 0))
+    | .error e => (e, "", "", 0)) =
+    ("38\n1\n", "IndexOutOfBounds", "Index out of bounds: cannot index a list of length 2 with 2", 12) := by
+  decide +kernel
+def φL : String → Option String := fun n =>
+  if n = "build" then some "@main.build" else if n = "at" then some "@main.at" else none
+def symBuild : SCode := cgFn "main" φL buildFd buildStmts (some (gv "t")) [[]] [] []
+def symAt : SCode := cgFn "main" φL atFd atStmts (some (gv "x")) [[]] [] []
+def symMain5 : SCode := cgFn "main" φL main5Fd main5Stmts none [[]] [] []
+def codeL17 : Code := [⟨"@main.build", renameVars (relG symBuild)⟩, ⟨"@main.at", renameVars (relG symAt)⟩,
+  ⟨"@main.main", renameVars (relG symMain5)⟩]
+
+local instance (priority := high) : BEq PVal := ⟨pvalBeq⟩
+/-- The real compiler produces `codeL17` (kernel evaluation, instruction by instruction). -/
+example : (match compile progL "main" 100 with
+    | .ok c => (c.fns.filter fun f => f.name != "@main.@init").map (fun f => (f.name, f.code))
+        == codeL17.map (fun f => (f.name, f.code))
+    | .error _ => false) = true := by decide +kernel
+
+/-- The context: `for` loops allowed, frames of at most 12 cells. -/
+def GL : GCtx := ⟨{ prog := progL }, codeL17, {}, "main", {}, fun g => g = "build" ∨ g = "at", 12, 0, true⟩
+
+private theorem phiL : PhiOK GL φL := by
+  intro name f h
+  unfold φL at h
+  split at h
+  · rename_i hn; subst hn; cases h
+    exact ⟨by decide +kernel, Or.inl rfl, buildFd, rfl, rfl⟩
+  · split at h
+    · rename_i hn; subst hn; cases h
+      exact ⟨by decide +kernel, Or.inr rfl, atFd, rfl, rfl⟩
+    · cases h
+
+theorem fnOK_build : FnOK GL "build" buildFd
+    ⟨renameVars (relG symBuild), slotFn (relG symBuild), labelIndex symBuild, (· ∈ varNames (relG symBuild)),
+      ["n", "l", "m", "i", "s", "t"], φL, [[]], [], []⟩ buildStmts (gv "t") :=
+  fn_compiled_okF GL buildFd buildStmts (gv "t") φL [[]] [] [] ["n", "l", "m", "i", "s", "t"] (relG symBuild)
+    ⟨sp0, .int, rfl⟩
+    (by decide) (relocate_relG _ (by decide +kernel))
+    (by
+      have h : mangleFnName GL.mod buildFd.name = "@main.build" := by decide +kernel
+      rw [h]; simp [findCode, codeL17, GL])
+    (by decide +kernel) (by decide +kernel) (by decide +kernel) (by decide +kernel)
+    (by decide +kernel) (by decide +kernel) (by decide +kernel) (by decide +kernel) (by decide +kernel)
+    (by decide +kernel) phiL
+
+theorem fnOK_at : FnOK GL "at" atFd
+    ⟨renameVars (relG symAt), slotFn (relG symAt), labelIndex symAt, (· ∈ varNames (relG symAt)),
+      ["k", "l", "x"], φL, [[]], [], []⟩ atStmts (gv "x") :=
+  fn_compiled_okF GL atFd atStmts (gv "x") φL [[]] [] [] ["k", "l", "x"] (relG symAt) ⟨sp0, .int, rfl⟩
+    (by decide) (relocate_relG _ (by decide +kernel))
+    (by
+      have h : mangleFnName GL.mod atFd.name = "@main.at" := by decide +kernel
+      rw [h]; simp [findCode, codeL17, GL])
+    (by decide +kernel) (by decide +kernel) (by decide +kernel) (by decide +kernel)
+    (by decide +kernel) (by decide +kernel) (by decide +kernel) (by decide +kernel) (by decide +kernel)
+    (by decide +kernel) phiL
+
+theorem gl_ok : GL.OK' := by
+  refine ⟨?_, by decide, by decide, rfl, rfl, rfl⟩
+  intro g fd hK hfind
+  rcases hK with rfl | rfl
+  · have h : findFn GL.cfg.prog GL.mod "build" = some buildFd := rfl
+    rw [h] at hfind; cases hfind
+    exact ⟨_, _, _, fnOK_build, fun _ => by decide⟩
+  · have h : findFn GL.cfg.prog GL.mod "at" = some atFd := rfl
+    rw [h] at hfind; cases hfind
+    exact ⟨_, _, _, fnOK_at, fun _ => by decide⟩
+
+theorem fnOK_main5 : FnVoidOK GL "main" main5Fd
+    ⟨renameVars (relG symMain5), slotFn (relG symMain5), labelIndex symMain5, (· ∈ varNames (relG symMain5)),
+      ["println", "build", "at"], φL, [[]], [], []⟩ main5Stmts :=
+  fn_void_compiled_okF GL main5Fd main5Stmts φL [[]] [] [] ["println", "build", "at"] (relG symMain5)
+    ⟨sp0, .null, rfl⟩ (by decide) (relocate_relG _ (by decide +kernel))
+    (by
+      have h : mangleFnName GL.mod main5Fd.name = "@main.main" := by decide +kernel
+      rw [h]; simp [findCode, codeL17, GL])
+    (by decide +kernel) (by decide +kernel) (by decide +kernel) (by decide +kernel)
+    (by decide +kernel) (by decide +kernel) (by decide +kernel) phiL
+
+private def fatalIs (out kd m : String) (sp : Span) : Except Ctl Val × St → Bool
+  | (.error (.fatal kd' m' sp'), st) => st.out == out && kd' == kd && m' == m && sp' == sp
+  | _ => false
+
+private theorem spec_main5 :
+    fatalIs "38\n1\n" "IndexOutOfBounds" "Index out of bounds: cannot index a list of length 2 with 2" spIdx
+      (callBody GL.cfg 200 sp0 GL.mod main5Fd.params main5Fd.body [] stX) = true := by
+  decide +kernel
+
+/-- **The program through the theorems**: `run` on the compiled code ends with the specification's fatal
+error — `IndexOutOfBounds` at the span of `l[k]` in `at`, two activations deep — after the specification's
+output. Before that, `build(1)` allocated a list, wrote to it through the alias `m` (also inside a `for`
+loop, reading the same list through `l`), used a negative index in a compound assignment, and summed
+elements read through both names: `38`; `at(-2)` read the first element through a wrapped index. -/
+example : ∃ K, ∀ quantum, K ≤ quantum → ∀ vfuel, ∃ s',
+    run codeL17 {} quantum none (vfuel + 1) { calls := [⟨"@main.main", 0⟩] } =
+      .fatal "IndexOutOfBounds" "Index out of bounds: cannot index a list of length 2 with 2" spIdx s' ∧
+    s'.st.out = "38\n1\n" := by
+  obtain ⟨fuel, hfuel⟩ : ∃ n : Nat, n = 200 := ⟨200, rfl⟩
+  have h := entry_runF GL gl_ok fuel "main" main5Fd _ main5Stmts fnOK_main5 (fun _ => by decide) sp0 stX 0 []
+    ⟨[], ⟨[], 0⟩⟩ ⟨trivial, rfl, rfl, by decide⟩ (by decide) (by decide) (by decide)
+  subst hfuel
+  have hs := spec_main5
+  rcases hev : callBody GL.cfg 200 sp0 GL.mod main5Fd.params main5Fd.body [] stX with ⟨res, st'⟩
+  rw [hev] at h hs
+  cases res with
+  | ok v => simp [fatalIs] at hs
+  | error e =>
+    cases e <;> try (simp [fatalIs] at hs; done)
+    rename_i kd m fsp
+    simp only [fatalIs, Bool.and_eq_true, beq_iff_eq] at hs
+    obtain ⟨⟨⟨hout, rfl⟩, rfl⟩, rfl⟩ := hs
+    obtain ⟨K, hK⟩ := h (by decide)
+    refine ⟨K, fun quantum hq vfuel => ?_⟩
+    obtain ⟨s', hrun, hst⟩ := hK quantum hq vfuel
+    exact ⟨s', hrun, by rw [hst]; exact hout⟩
+end Example17
 
 end HmsProofs.C01VM
